@@ -160,7 +160,28 @@ pub fn zdrops_reset() {
 }
 
 /// Uniform view of the element families used by the Vec model.
-pub trait Elem: Sized + Clone + PartialEq + std::fmt::Debug + 'static {
+impl std::hash::Hash for D {
+    fn hash<H: std::hash::Hasher>(&self, h: &mut H) {
+        self.val.hash(h)
+    }
+}
+impl PartialOrd for D {
+    fn partial_cmp(&self, o: &D) -> Option<std::cmp::Ordering> {
+        self.val.partial_cmp(&o.val)
+    }
+}
+impl std::hash::Hash for Z {
+    fn hash<H: std::hash::Hasher>(&self, h: &mut H) {
+        0u8.hash(h)
+    }
+}
+impl PartialOrd for Z {
+    fn partial_cmp(&self, _o: &Z) -> Option<std::cmp::Ordering> {
+        Some(std::cmp::Ordering::Equal)
+    }
+}
+
+pub trait Elem: Sized + Clone + PartialEq + PartialOrd + std::hash::Hash + std::fmt::Debug + 'static {
     const NAME: &'static str;
     const COPY: bool;
     const TRACKED: bool;
